@@ -12,11 +12,16 @@ package kubeeventsmanager
 // Ghost: the latest result of applyFilter (C08: what the cache must hold afterwards).
 //@ ghost lastFilterRes *kemtypes.ObjectAndFilterResult
 //@ ghost lastFilterErr error
+// the log of successful and failed filter applications, in call order (C02: one per listed object)
+//@ ghost nFilter int
+//@ ghost filterLog map[int]*kemtypes.ObjectAndFilterResult
 //@ func applyFilter
 //@   prop C09, C08
-//@   modifies lastFilterRes, lastFilterErr
+//@   modifies lastFilterRes, lastFilterErr, nFilter, filterLog
 //@   ghostset lastFilterRes := result0
 //@   ghostset lastFilterErr := result1
+//@   ghostset nFilter := nFilter + 1
+//@   ghostset filterLog[nFilter] := result0
 //@   ensures [fresh]       result1 == nil ==> fresh(result0)
 //@   ensures [fields]      result1 == nil ==> result0 != nil && result0.Metadata.JqFilter == jqFilter && result0.Object == obj && result0.Metadata.ResourceId == resourceId(obj) && !result0.Metadata.RemoveObject
 //@   ensures [stored-type] result1 == nil && filterFn == nil && jqFilter != "" ==> dyntype(result0.FilterResult, map[string]interface{})
@@ -68,7 +73,7 @@ package kubeeventsmanager
 //@   requires [assumed:informer-delivers-unstructured-objects] IsObj(object) || (dyntype(object, cache.DeletedFinalStateUnknown) && IsObj(object.(cache.DeletedFinalStateUnknown).Obj))
 //@   requires forall(k, string, has(ei.cachedObjects, k) ==> ei.cachedObjects[k] != nil)
 //@   requires [event-kind] eventType == kemtypes.WatchEventAdded || eventType == kemtypes.WatchEventModified || eventType == kemtypes.WatchEventDeleted
-//@   modifies mapof(ei.cachedObjects), fields(ei.cachedObjectsInfo), fields(ei.cachedObjectsIncrement), ei.eventBuf, allelems(kemtypes.KubeEvent), ei.eventCbEnabled, nPut, lastPut, putLog, lastFilterRes, lastFilterErr
+//@   modifies mapof(ei.cachedObjects), fields(ei.cachedObjectsInfo), fields(ei.cachedObjectsIncrement), ei.eventBuf, allelems(kemtypes.KubeEvent), ei.eventCbEnabled, nPut, lastPut, putLog, lastFilterRes, lastFilterErr, nFilter, filterLog
 //@   let o := ite(dyntype(object, cache.DeletedFinalStateUnknown), object.(cache.DeletedFinalStateUnknown).Obj, object).(*unstructured.Unstructured)
 //@   let rid := resourceId(ite(dyntype(object, cache.DeletedFinalStateUnknown), object.(cache.DeletedFinalStateUnknown).Obj, object).(*unstructured.Unstructured))
 //@   let wasCached := old(has(ei.cachedObjects, rid))
@@ -108,21 +113,21 @@ package kubeeventsmanager
 //@   requires ei.Monitor != nil && ei.cachedObjects != nil && ei.cachedObjectsInfo != nil && ei.cachedObjectsIncrement != nil
 //@   requires [assumed:informer-delivers-unstructured-objects] IsObj(obj) || (dyntype(obj, cache.DeletedFinalStateUnknown) && IsObj(obj.(cache.DeletedFinalStateUnknown).Obj))
 //@   requires forall(k, string, has(ei.cachedObjects, k) ==> ei.cachedObjects[k] != nil)
-//@   modifies mapof(ei.cachedObjects), fields(ei.cachedObjectsInfo), fields(ei.cachedObjectsIncrement), ei.eventBuf, allelems(kemtypes.KubeEvent), ei.eventCbEnabled, nPut, lastPut, putLog, lastFilterRes, lastFilterErr
+//@   modifies mapof(ei.cachedObjects), fields(ei.cachedObjectsInfo), fields(ei.cachedObjectsIncrement), ei.eventBuf, allelems(kemtypes.KubeEvent), ei.eventCbEnabled, nPut, lastPut, putLog, lastFilterRes, lastFilterErr, nFilter, filterLog
 //@   ensures [kind @C08] nPut > old(nPut) ==> lastPut.WatchEvents[0] == kemtypes.WatchEventAdded
 //@ func (*resourceInformer).OnUpdate
 //@   prop C08
 //@   requires ei.Monitor != nil && ei.cachedObjects != nil && ei.cachedObjectsInfo != nil && ei.cachedObjectsIncrement != nil
 //@   requires [assumed:informer-delivers-unstructured-objects] IsObj(newObj) || (dyntype(newObj, cache.DeletedFinalStateUnknown) && IsObj(newObj.(cache.DeletedFinalStateUnknown).Obj))
 //@   requires forall(k, string, has(ei.cachedObjects, k) ==> ei.cachedObjects[k] != nil)
-//@   modifies mapof(ei.cachedObjects), fields(ei.cachedObjectsInfo), fields(ei.cachedObjectsIncrement), ei.eventBuf, allelems(kemtypes.KubeEvent), ei.eventCbEnabled, nPut, lastPut, putLog, lastFilterRes, lastFilterErr
+//@   modifies mapof(ei.cachedObjects), fields(ei.cachedObjectsInfo), fields(ei.cachedObjectsIncrement), ei.eventBuf, allelems(kemtypes.KubeEvent), ei.eventCbEnabled, nPut, lastPut, putLog, lastFilterRes, lastFilterErr, nFilter, filterLog
 //@   ensures [kind @C08] nPut > old(nPut) ==> lastPut.WatchEvents[0] == kemtypes.WatchEventModified
 //@ func (*resourceInformer).OnDelete
 //@   prop C08
 //@   requires ei.Monitor != nil && ei.cachedObjects != nil && ei.cachedObjectsInfo != nil && ei.cachedObjectsIncrement != nil
 //@   requires [assumed:informer-delivers-unstructured-objects] IsObj(obj) || (dyntype(obj, cache.DeletedFinalStateUnknown) && IsObj(obj.(cache.DeletedFinalStateUnknown).Obj))
 //@   requires forall(k, string, has(ei.cachedObjects, k) ==> ei.cachedObjects[k] != nil)
-//@   modifies mapof(ei.cachedObjects), fields(ei.cachedObjectsInfo), fields(ei.cachedObjectsIncrement), ei.eventBuf, allelems(kemtypes.KubeEvent), ei.eventCbEnabled, nPut, lastPut, putLog, lastFilterRes, lastFilterErr
+//@   modifies mapof(ei.cachedObjects), fields(ei.cachedObjectsInfo), fields(ei.cachedObjectsIncrement), ei.eventBuf, allelems(kemtypes.KubeEvent), ei.eventCbEnabled, nPut, lastPut, putLog, lastFilterRes, lastFilterErr, nFilter, filterLog
 //@   ensures [kind @C08] nPut > old(nPut) ==> lastPut.WatchEvents[0] == kemtypes.WatchEventDeleted
 
 // C08: executeHookOnEvent absent = all three watch events; otherwise exactly the given ones.
@@ -201,3 +206,47 @@ package kubeeventsmanager
 //@     ensures forall(x, 0, len(objects), forall(y, 0, len(objects), x < y ==> !kemtypes.NsNameLess(objects[y], objects[x])))
 //@   loop 1
 //@     invariant 0 <= iter() && iter() <= len(m.ResourceInformers)
+
+// ---- C02 / C09: the initial list fills the cache -------------------------------------------------
+// Ghost: the latest list answered by the cluster client, and the log of filter applications.
+//@ ghost lastList *unstructured.UnstructuredList
+//@ ghost lastListErr error
+//@ package k8s.io/client-go/dynamic
+//@ trusted func ResourceInterface.List
+//@   modifies kubeeventsmanager.lastList, kubeeventsmanager.lastListErr
+//@   ghostset kubeeventsmanager.lastList := result0
+//@   ghostset kubeeventsmanager.lastListErr := result1
+//@ package github.com/flant/shell-operator/pkg/kube_events_manager
+
+// an entry as the binding asks for it: with the full object exactly when keepFullObjectsInMemory
+//@ pred EntryOK(e *kemtypes.ObjectAndFilterResult, id string, keep bool) := e != nil && e.Metadata.ResourceId == id
+//@     && (keep ==> e.Object != nil && !e.Metadata.RemoveObject) && (!keep ==> e.Object == nil && e.Metadata.RemoveObject)
+
+// C02: after a successful initial list every listed object has been filtered once and is in the
+// cache under its resource id; entries that were in the cache stay (or are replaced by a listed
+// object of the same id); the object count follows the cache. A failure changes nothing.
+// C09: the cached entries carry the full object exactly when keepFullObjectsInMemory.
+//@ func (*resourceInformer).loadExistedObjects
+//@   prop C02, C09
+//@   requires ei.Monitor != nil && ei.cachedObjects != nil && ei.cachedObjectsInfo != nil && ei.KubeClient != nil && nFilter >= 0
+//@   modifies mapof(ei.cachedObjects), fields(ei.cachedObjectsInfo), lastList, lastListErr, lastFilterRes, lastFilterErr, nFilter, filterLog, all(kemtypes.ObjectAndFilterResult.Object), all(kemtypes.ObjectAndFilterResult.Metadata)
+//@   let n0 := old(nFilter)
+//@   ensures [list-error-fails]  lastListErr != nil ==> result != nil
+//@   ensures [failure-changes-nothing] result != nil ==> entries(ei.cachedObjects) == old(entries(ei.cachedObjects))
+//@   ensures [each-item-filtered-once] result == nil && lastList != nil ==> nFilter == n0 + len(lastList.Items)
+//@   ensures [every-item-cached] result == nil ==> forall(k, n0, nFilter, filterLog[k] != nil && has(ei.cachedObjects, filterLog[k].Metadata.ResourceId))
+//@   ensures [new-entries-well-formed] result == nil ==> forall(x, string, has(ei.cachedObjects, x) && ei.cachedObjects[x] != old(ei.cachedObjects[x]) ==> EntryOK(ei.cachedObjects[x], x, ei.Monitor.KeepFullObjectsInMemory))
+//@   ensures [old-entries-stay] forall(x, string, old(has(ei.cachedObjects, x)) ==> has(ei.cachedObjects, x))
+//@   loop 1
+//@     invariant 0 <= iter() && iter() <= len(objList.Items) && objList == lastList && lastListErr == nil
+//@     invariant filteredObjects != nil && fresh(filteredObjects) && filteredObjects != ei.cachedObjects
+//@     invariant entries(ei.cachedObjects) == old(entries(ei.cachedObjects))
+//@     invariant nFilter == n0 + iter()
+//@     invariant forall(k, n0, nFilter, filterLog[k] != nil && has(filteredObjects, filterLog[k].Metadata.ResourceId))
+//@     invariant forall(x, string, has(filteredObjects, x) ==> allocated(filteredObjects[x]) && EntryOK(filteredObjects[x], x, ei.Monitor.KeepFullObjectsInMemory) && filteredObjects[x] != old(ei.cachedObjects[x]))
+//@   loop 2
+//@     invariant filteredObjects != nil && filteredObjects != ei.cachedObjects && entries(filteredObjects) == atloop(entries(filteredObjects))
+//@     invariant forall(x, string, has(filteredObjects, x) ==> EntryOK(filteredObjects[x], x, ei.Monitor.KeepFullObjectsInMemory) && filteredObjects[x] != old(ei.cachedObjects[x]))
+//@     invariant forall(k, n0, nFilter, filterLog[k] != nil && has(filteredObjects, filterLog[k].Metadata.ResourceId))
+//@     invariant forall(x, string, visited(x) ==> has(filteredObjects, x) && has(ei.cachedObjects, x) && ei.cachedObjects[x] == filteredObjects[x])
+//@     invariant forall(x, string, !visited(x) ==> has(ei.cachedObjects, x) == old(has(ei.cachedObjects, x)) && ei.cachedObjects[x] == old(ei.cachedObjects[x]))
